@@ -114,7 +114,7 @@ struct World {
     inflight_seen: usize,
     polls: u64,
     budget: u64,
-    ret_err: [u64; 4],
+    ret_err: [u64; NK],
     ret_zero: u64,
     cw: std::sync::Arc<CountWaker>,
 }
@@ -402,7 +402,7 @@ impl C16 {
             inflight_seen: 0,
             polls: 0,
             budget,
-            ret_err: [0; 4],
+            ret_err: [0; NK],
             ret_zero: 0,
             cw: cw.clone(),
         };
